@@ -135,3 +135,15 @@ Theorem C01_wire_example :
   marshal_sign1 (mkS1 (mkH None op None ou) (Some [112]) (Some [1; 2; 3])) = Acc (x "d28446a2012604416ba10363612f62417043010203").
 Proof. exact wire_example. Qed.
 Print Assumptions C01_wire_example.
+
+(* the same for COSE_Sign with any number of signers: what verifies in memory verifies after MarshalCBOR / UnmarshalCBOR, position by position *)
+Theorem C01_signmsg_wire_verifies :
+  forall op ou payload sts out ext vfs,
+  let m := mkSM (mkH None op None ou) payload (map (fun s => Some (st_sigv s)) sts) in
+  bucket_ok op -> bucket_ok ou -> prot_limits op -> unprot_limits ou -> payload_ok payload ->
+  Forall st_ok sts -> len sts < two64 ->
+  marshal_signmsg m = Acc out -> lib_wf false (tl (tl out)) <> None ->
+  fst (signmsg_verify m ext vfs) = Acc tt ->
+  exists m', unmarshal_signmsg out = Acc m' /\ fst (signmsg_verify m' ext vfs) = Acc tt.
+Proof. exact signmsg_wire_verifies. Qed.
+Print Assumptions C01_signmsg_wire_verifies.
